@@ -634,24 +634,40 @@ Proof.
   rewrite IH; auto. destruct n; auto; discriminate.
 Qed.
 
+(* at most one doctype (the tree builder ignores a second DOCTYPE token in the start phase) *)
+Fixpoint dt_ok (has : bool) (l : list xnode) : bool :=
+  match l with
+  | [] => true
+  | XDoctype _ _ _ :: t => negb has && dt_ok true t
+  | _ :: t => dt_ok has t
+  end.
+
 Lemma prolog_run : forall l s, forallb is_prolog l = true ->
+  dt_ok (existsb is_doctype (tdoc s)) l = true ->
   Live s -> tphase s = PStart -> topen s = [] -> tpost s = [] ->
   let s' := run_from s (toks (map misc_item l)) in
   Live s' /\ tphase s' = PStart /\ topen s' = [] /\ tpost s' = [] /\
   tdoc s' = rev (map misc_b l) ++ tdoc s.
 Proof.
-  induction l as [|n l IH]; intros s H L PH O TP; [simpl; auto|].
+  induction l as [|n l IH]; intros s H DT L PH O TP; [simpl; auto|].
   simpl in H. apply andb_true_iff in H. destruct H as [H1 H2].
   cbn [map]. change (toks (misc_item n :: map misc_item l))
     with (tokenize (item_rtoken (misc_item n)) :: toks (map misc_item l)).
   cbn [run_from fold_left]. fold (run_from (step s (tokenize (item_rtoken (misc_item n)))) (toks (map misc_item l))).
   assert (ST : step s (tokenize (item_rtoken (misc_item n))) = set_doc s (misc_b n :: tdoc s)).
-  { destruct n; try discriminate; simpl; unfold step; rewrite PH; unfold append_doc; rewrite O; reflexivity. }
+  { destruct n; try discriminate; simpl; unfold step; rewrite PH.
+    - unfold append_doc; rewrite O; reflexivity.
+    - unfold append_doc; rewrite O; reflexivity.
+    - cbn [dt_ok] in DT. apply andb_true_iff in DT. destruct DT as [DT _]. apply negb_true_iff in DT.
+      rewrite DT. unfold append_doc. rewrite O. reflexivity. }
   rewrite ST.
   assert (L' : Live (set_doc s (misc_b n :: tdoc s))).
   { destruct L as (P & F & (D1 & D2) & C & N). unfold Live, docs_ok, nss_ok in *. simpl.
     repeat split; auto. constructor; auto. destruct n; simpl; auto; discriminate. }
-  destruct (IH (set_doc s (misc_b n :: tdoc s)) H2 L' PH O TP) as (A & B & C & D & E).
+  assert (DT' : dt_ok (existsb is_doctype (tdoc (set_doc s (misc_b n :: tdoc s)))) l = true).
+  { destruct n; try discriminate; cbn [dt_ok] in DT; simpl; try exact DT.
+    apply andb_true_iff in DT. destruct DT as [_ DT]. exact DT. }
+  destruct (IH (set_doc s (misc_b n :: tdoc s)) H2 DT' L' PH O TP) as (A & B & C & D & E).
   split; [exact A|]. split; [exact B|]. split; [exact C|]. split; [exact D|].
   rewrite E. simpl. rewrite <- app_assoc. reflexivity.
 Qed.
@@ -694,12 +710,12 @@ Qed.
    tokens denoted by the serializer's items rebuild the same document *)
 Theorem roundtrip_tokens_outside_finding : forall pre name attrs ks post,
   let kids := pre ++ XElem name attrs ks :: post in
-  forallb is_prolog pre = true -> forallb is_misc post = true ->
+  forallb is_prolog pre = true -> dt_ok false pre = true -> forallb is_misc post = true ->
   node_wf (XElem name attrs ks) = true ->
   ser_clean kids = true ->
   reparse kids = map strip_ids kids.
 Proof.
-  intros pre name attrs ks post kids HP HM WF CL.
+  intros pre name attrs ks post kids HP HD HM WF CL.
   unfold ser_clean in CL. apply negb_true_iff in CL.
   unfold reparse, ser_doc.
   rewrite <- (ser_nodes_g_erase kids [] []) in * by reflexivity.
@@ -731,7 +747,7 @@ Proof.
   rewrite map_app. rewrite (toks_eq _). simpl (map tokenize [REof]).
   rewrite !toks_app, !run_from_app.
   assert (L0 : Live tb_init) by (unfold Live, docs_ok, nss_ok; simpl; repeat split; auto).
-  destruct (prolog_run pre tb_init HP L0 eq_refl eq_refl eq_refl) as (LA & PA & OA & TA & DA).
+  destruct (prolog_run pre tb_init HP HD L0 eq_refl eq_refl eq_refl) as (LA & PA & OA & TA & DA).
   set (s0 := run_from tb_init (toks (map misc_item pre))) in *.
   change (toks (IStart name decls attrs :: is ++ [IEnd name]))
     with (tokenize (item_rtoken (IStart name decls attrs)) :: toks (is ++ [IEnd name])).
@@ -778,7 +794,7 @@ Fixpoint split_root (l : list xnode) : option (list xnode * xnode * list xnode) 
 Definition rt_hyps (kids : list xnode) : bool :=
   match split_root kids with
   | Some (pre, root, post) =>
-    forallb is_prolog pre && forallb is_misc post && node_wf root &&
+    forallb is_prolog pre && dt_ok false pre && forallb is_misc post && node_wf root &&
     ser_clean kids
   | None => false
   end.
@@ -799,7 +815,8 @@ Proof.
   destruct (split_root kids) as [[[pre root] post]|] eqn:S; [|discriminate].
   destruct (split_root_app _ _ _ _ S) as [E (nm & a & k & R)]. subst root kids.
   apply andb_true_iff in H. destruct H as [H H4].
-  apply andb_true_iff in H. destruct H as [H H3]. apply andb_true_iff in H. destruct H as [H1 H2].
+  apply andb_true_iff in H. destruct H as [H H3]. apply andb_true_iff in H. destruct H as [H H2].
+  apply andb_true_iff in H. destruct H as [H1 HD].
   apply roundtrip_tokens_outside_finding; auto.
 Qed.
 
